@@ -145,6 +145,15 @@ def run_contract(c, tier, timeout_ms):
     res = solve.discharge_all(g.obls, timeout_ms=timeout_ms)
     # second opinion for anything not discharged while all cores were busy: one at a time, doubled budget
     # (a verdict must not depend on machine load)
+    # a solver *error* (seen once: a worker process whose z3 state was corrupted failed to re-parse three queries in a row)
+    # is re-tried in this process, one query at a time, before it may count as a checker error
+    broken = [i for i, r in enumerate(res) if r["status"] == "error"]
+    if broken and len(broken) <= 40:
+        again = solve.discharge_all([res[i]["obl"] for i in broken], timeout_ms=timeout_ms, parallel=False)
+        for i, r2 in zip(broken, again):
+            if r2["status"] != "error":
+                r2["time"] += res[i]["time"]
+                res[i] = r2
     weak = [i for i, r in enumerate(res) if r["status"] in ("unknown", "sat-inst")]
     if weak and len(weak) <= 8:
         # at most 8 queries on 16 cores: effectively unloaded. More than 8 weak verdicts are not a load artefact.
